@@ -118,6 +118,24 @@ static inline C01Stats exec_c01(const Case &c) {
                 if (vp_ledger_violations()) { s.fail = vp_ledger_last_violation(); break; }
                 continue;
             }
+            if (op.kind == 13 /*storm: a = count, generation, service*/) {
+                // Discovers from many distinct mappers within one instant: session-table full, recycling, mapper conflicts
+                int64_t cnt = std::max<int64_t>(0, std::min<int64_t>(op.arg(0), 40));
+                for (int64_t k = 0; k < cnt; k++) {
+                    Mac mk = mac_from_u64(0x0200BB000001ULL + ((uint64_t)k << 8));
+                    for (int flow = 0; flow < 2; flow++) {
+                        Mac me = flow == 0 ? own : mac_from_u64(mac_to_u64(own) ^ 0x10);
+                        Bytes f = mk_discover(mk, mk, (uint8_t)(op.arg(2) & 1), (uint16_t)(k + 1), (uint16_t)op.arg(1), {mac_from_u64(0x0600BB000001ULL), k & 1 ? me : mac_from_u64(0x0600BB000002ULL)});
+                        uint8_t *tf;
+                        if (flow == 0) br_darwin_rx(&d, w.stage(i0, f, DAEMON, &tf), f.size());
+                        else br_linux_rx(lm, ls, w.stage(i1, f, DAEMON, &tf), w.ctx(i1));
+                    }
+                    s.frames++;
+                }
+                s.deep++;
+                if (vp_ledger_violations()) { s.fail = vp_ledger_last_violation(); break; }
+                continue;
+            }
             if (op.kind != 9 /*K_RAW*/) continue;
             Bytes f = op.blob;
             if (f.size() > mtu) f.resize(mtu);
